@@ -31,8 +31,9 @@ META = {
 finding_key = e2e.finding_key("C01")
 
 
-def J(name, template, lens, split=16, chunk=30, must=(), flagsets=None):
+def J(name, template, lens, split=16, chunk=30, must=(), flagsets=None, **extra):
     p = {"template": template, "lens": lens}
+    p.update(extra)
     if flagsets is not None:
         p["flagsets"] = flagsets
     return {"name": name, "h": "e2e", "params": p, "split": split, "chunk": chunk, "max_paths": 300000, "must_reach": list(must)}
@@ -47,6 +48,10 @@ def jobs(tier):
             J("T6-12", "T6", [12], flagsets=[1, 2]),
             J("JPSS-71", "JPSS", [71], flagsets=[0, 3]),
             J("T8-8-8", "T8", [8, 8], flagsets=[3]),          # two packets through one definition: a parameter whose derived TYPE varies per packet
+            # other public entry points: root container named at load time / in the generator call; parse_ccsds_packet called directly
+            J("R|T4-9-load", "R|T4", [9], flagsets=[3], root_mode="load"), J("R|T4-10-gen", "R|T4", [10], flagsets=[0], root_mode="gen"),
+            J("T4-9-10-file-r7-skip4", "T4", [9, 10], flagsets=[3], source="file", read=7, skip=4), J("T4-10-9-file-r5", "T4", [10, 9], flagsets=[0], source="file", read=5),
+            J("T4-10-direct", "T4", [10], flagsets=[3], via="direct"), J("R|T6-12-direct-gen", "R|T6", [12], flagsets=[3], via="direct", root_mode="gen"),
         ] + [J(f"MIX{k}-12", f"MIX{k}", [12], flagsets=[1, 2], split=4) for k in range(17)]
     out = []
     for t, clean in (("T1", 19), ("T2", 18), ("T3", 16), ("T5", 9), ("T6", 12)):
@@ -56,6 +61,12 @@ def jobs(tier):
             J("T6-12-12", "T6", [12, 12], flagsets=[1, 2]), J("JPSS-71", "JPSS", [71]), J("JPSS-71-71", "JPSS", [71, 71], flagsets=[3]),
             J("JPSSC-71", "JPSS_CONTRIVED", [71])]
     out += [J(f"MIX{k}-{n}", f"MIX{k}", [n], split=4) for k in range(102) for n in ((12,) if k % 3 else (11, 12, 13))]
+    out += [J(f"T4-9-10-9-file-r{r}-skip{k}", "T4", [9, 10, 9], flagsets=[3], source="file", read=r, skip=k) for r, k in ((7, 4), (1, 2), (20, 4), (16, 10), (None, 3), (5, 0))]
+    out += [J("T6-12-12-file-r8-skip3", "T6", [12, 12], flagsets=[0, 3], source="file", read=8, skip=3), J("T4-9-10-skip5", "T4", [9, 10], flagsets=[3], skip=5)]
+    out += [J("R|T4-9-10-load", "R|T4", [9, 10], root_mode="load"), J("R|T4-10-9-gen", "R|T4", [10, 9], root_mode="gen"), J("R|T6-12-gen", "R|T6", [12], root_mode="gen"),
+            J("T4-9-10-direct", "T4", [9, 10], flagsets=[3], via="direct"), J("T6-12-direct", "T6", [12], flagsets=[3], via="direct"),
+            J("R|T6-12-direct-gen", "R|T6", [12], flagsets=[3], via="direct", root_mode="gen"), J("T1-19-direct", "T1", [19], flagsets=[3], via="direct"),
+            J("R|JPSS-71-load", "R|JPSS", [71], flagsets=[3], root_mode="load")]
     out += [J("T8-8-8", "T8", [8, 8]), J("T8-8-9-8", "T8", [8, 9, 8], flagsets=[3]), J("B|lookup|0-14-14", "B|lookup|0", [14, 14], flagsets=[1]),
             J("MIX17-12-12", "MIX17", [12, 12], flagsets=[3]), J("MIX12-12-12", "MIX12", [12, 12], flagsets=[3])]
     return out
